@@ -7,7 +7,7 @@
      c  of one that started from that snapshot                           (a restart, a new member)
    Accepted iff all three describe the same catalogue (Catalogue!Agree, SnapOK): the same
    datasets with the same dimension, metric and replication factor, the same partitions in the same order, the same replica set per partition,
-   and no node listed twice. *)
+   and no node listed twice.  kept: the raft stores of the replicas that b hosts from the snapshot's arrival to the end. *)
 EXTENDS Integers, Sequences, FiniteSets, TLC, Json
 CONSTANT TraceFile
 Trace == ndJsonDeserialize(TraceFile)
@@ -30,6 +30,9 @@ V(t) == (IF t.res = "ok" THEN {} ELSE {<<l, "RestoreFailed">>})
         \cup (IF Same(t.a, t.b) THEN {} ELSE {<<l, "RestoreIntoKnownDiffers">>})
         \cup (IF Same(t.a, t.c) THEN {} ELSE {<<l, "RestoreFromScratchDiffers">>})
         \cup (IF NoDup(t.a) /\ NoDup(t.b) /\ NoDup(t.c) THEN {} ELSE {<<l, "ReplicaListedTwice">>})
+        \* a replica this node hosts when the snapshot arrives and keeps hosting: its raft log is still there afterwards
+        \* (before / after: the log's last index; it only grows while the replica stays - Catalogue!StoresKept)
+        \cup (IF \A k \in 1..Len(t.kept) : t.kept[k].after >= t.kept[k].before THEN {} ELSE {<<l, "ReplicaStoreLost">>})
 Init == l = 1 /\ viol = {}
 Step == /\ l <= Len(Trace) /\ l' = l + 1 /\ viol' = viol \cup V(Trace[l])
 Spec == Init /\ [][Step]_vars
